@@ -50,6 +50,8 @@ class SymmetricQuantizer(Function):
                 raise ValueError(
                     "When quantizing per-axis, the scale must be broadcastable to the base (Tip: try to add missing dims of length zero)."
                 )
+            if scale.shape[axis] != base.shape[axis] or scale.numel() != base.shape[axis]:
+                raise ValueError("When quantizing per-axis, the scale must have exactly one value per index of the quantization axis.")
         data = base / scale
         if not qtype.is_floating_point:
             data = torch.round(data)
